@@ -246,3 +246,4 @@ func errTexts(es []error) []string {
 
 func TestProp(t *testing.T)   { ev.Prop(t, false, genCase, check) }
 func TestReplay(t *testing.T) { ev.Replay(t, check) }
+func FuzzC17(f *testing.F)    { ev.FuzzProp(f, false, genCase, check) }
